@@ -86,7 +86,7 @@ def extract_sig():
         if isinstance(n, ast.Assign) and isinstance(n.value, ast.Call) and getattr(n.value.func, "id", None) == "HK" \
                 and isinstance(n.value.args[0], ast.Constant):
             keys[n.targets[0].id] = n.value.args[0].value
-    for need in ("_hash_key_body_sig", "_hash_key_fun_input", "_hash_key_fun_inter"):
+    for need in ("_hash_key_body_sig", "_hash_key_fun_input", "_hash_key_fun_inter", "_hash_key_fun_deps"):
         if need not in keys:
             raise Unrecognised(need + " not found")
 
@@ -104,6 +104,8 @@ def extract_sig():
                     raise Unrecognised("HK argument " + ast.unparse(a))
         return out
     brs = hk_prefixes(find_def(tree, "_build_return_sig"))
+    if hk_prefixes(find_def(find_def(tree, "IntroVisitor"), "_deps_sig")) != ["dep_{}"]:
+        raise Unrecognised("IntroVisitor._deps_sig keys")
     fsl = hk_prefixes(find_def(tree, "_fis_to_siglist"))
     exp_brs = ["arg_context", "arg_{}", "dep_{}", "ext_dep_{}", "ext_variable_{}"]
     if sorted(brs) != sorted(exp_brs) and len(brs) != 5:
@@ -119,6 +121,7 @@ def extract_sig():
     body += f"Definition c_key_body_sig : string := {cstr(keys['_hash_key_body_sig'])}.\n"
     body += f"Definition c_key_fun_input : string := {cstr(keys['_hash_key_fun_input'])}.\n"
     body += f"Definition c_key_fun_inter : string := {cstr(keys['_hash_key_fun_inter'])}.\n"
+    body += f"Definition c_key_fun_deps : string := {cstr(keys['_hash_key_fun_deps'])}.\n"
     body += f"Definition c_key_arg_context : string := {cstr(arg_context)}.\n"
     def one(p):
         return only([x for x in pref if x == p or (p == "arg_" and x == "arg_")], p)
